@@ -160,6 +160,20 @@ func (s *c07SUT) Checkpoint() any       { return s.us.GetMemBuffer().Checkpoint(
 func (s *c07SUT) Revert(cp any)         { s.us.GetMemBuffer().RevertToCheckpoint(cp.(*MemDBCheckpoint)) }
 func (s *c07SUT) Close()                {}
 
+// Lock leaves a flags-only entry in the buffer (the key is locked, or only carries a lazy-check flag).
+func (s *c07SUT) Lock(k []byte, persistent bool) error {
+	if persistent {
+		s.us.GetMemBuffer().UpdateFlags(k, kv.SetKeyLocked)
+	} else {
+		s.us.GetMemBuffer().UpdateFlags(k, kv.SetPresumeKeyNotExists)
+	}
+	return nil
+}
+
+func (s *c07SUT) SetLocked(k, v []byte) error {
+	return s.us.GetMemBuffer().SetWithFlags(k, v, kv.SetKeyLocked)
+}
+
 type c07World struct {
 	snap *c07Snap
 	buf  func() MemBuffer
@@ -194,6 +208,8 @@ func c07Floors(r *vrep.Report, scale int) {
 	r.Floor("revert_after_same_length_overwrite", 5*scale)
 	r.Floor("nested_staging", 20*scale)
 	r.Floor("op_release", 20*scale)
+	r.Floor("iter_ends_on_flags_only_entry", 50*scale)
+	r.Floor("iter_reverse_ends_on_flags_only_entry", 20*scale)
 }
 
 func c07RunUnionStore(t *testing.T, unit, name string, buf func() MemBuffer) {
